@@ -348,6 +348,10 @@ func (c *Mix) Dec() (int64, bool) {
 	return c.A, sok && sv == c.A && c.P.OK() && c.P.V == c.A && c.B == int32(c.A)
 }
 
+// LateObs1/2 are never registered by the harness itself: directed scenarios use them as "new" component types.
+type LateObs1 struct{ V int64 }
+type LateObs2 struct{ V int64 }
+
 // ---- relation types ---------------------------------------------------------------
 
 // R0 is a marker-only (zero-size) relation.
